@@ -161,7 +161,10 @@ def loop_witness(f, b, cfg, head, body, taint):
         # the hit branch leaves the loop
         hit_leaves = any(not (cfg.reachable_from(s2) & {head}) or s2 not in body for s2 in cfg.succ[tg] if b["blocks"][s2]["term"]["k"] != "unreachable")
         root = coll_root(t["args"][0])
-        adds = [bi2 for bi2, t2 in calls if last_seg(F.callee_name(t2)) in ("push", "insert", "push_back") and root is not None and (coll_root(t2["args"][0]) or frozenset()) & root]
+        # ... and what is added is the very value that was looked up (not something computed from it)
+        looked = taint.expr_key(b, t["args"][1]) if len(t["args"]) > 1 else None
+        adds = [bi2 for bi2, t2 in calls if last_seg(F.callee_name(t2)) in ("push", "insert", "push_back") and root is not None and (coll_root(t2["args"][0]) or frozenset()) & root
+                and len(t2["args"]) > 1 and taint.expr_key(b, t2["args"][1]) == looked]
         if hit_leaves and adds and must_pass(adds) and must_pass([bi]):
             return "seen-set", "every iteration looks the driving value up in a collection (leaving on a hit) and adds it"
     # --- shrink: the slice the loop works on is replaced by a strictly shorter tail of itself ------------
@@ -185,3 +188,121 @@ def loop_witness(f, b, cfg, head, body, taint):
     if not [1 for bi, t in calls if last_seg(F.callee_name(t)) not in ("deref", "call", "call_mut", "call_once", "as_ref", "branch", "from_residual")]:
         return "descent", "the loop only follows a link of the value it holds (no producer of new values inside)"
     return None, "no termination witness (calls inside: %s)" % ", ".join(sorted({last_seg(F.callee_name(t)) for bi, t in calls}))[:160]
+
+
+def _flatten_add(k):
+    """terms of a (nested) sum"""
+    if isinstance(k, tuple) and k and k[0] == "Add":
+        return _flatten_add(k[1]) + _flatten_add(k[2])
+    if isinstance(k, tuple) and k and k[0] in ("checked_add", "saturating_add") and len(k) == 3:
+        return _flatten_add(k[1]) + _flatten_add(k[2])
+    return [k]
+
+
+def consumption_check(f, b, cfg, head, body, taint):
+    """Cursor loops of the shape  `while cursor + X < len { ... cursor += a; ... cursor += b; }`:
+    what one iteration adds to the cursor must not exceed what the loop condition guarantees to be left
+    (X, plus one if the comparison is strict).  -> (recognised, ok, text)"""
+    # 1. the exit comparison against a length
+    cond = None
+    for n in sorted(body):
+        bb = b["blocks"][n]
+        t = bb["term"]
+        if t["k"] != "switch":
+            continue
+        outs = [s for s in cfg.succ[n] if s not in body and b["blocks"][s]["term"]["k"] != "unreachable"]
+        if not outs:
+            continue
+        dl = F.op_local(t["discr"])
+        for st in bb["stmts"]:
+            if st[0] == "assign" and st[1] == [dl] and st[2][0] == "binop" and st[2][1] in ("Lt", "Le", "Gt", "Ge"):
+                ka, kb = taint.expr_key(b, st[2][2]), taint.expr_key(b, st[2][3])
+                op = st[2][1]
+                arms = {a[0]: a[1] for a in t["arms"]}
+                true_t = t["otherwise"] if 0 in arms else arms.get(1)
+                cont_when_true = true_t in body
+                # normalise to  K (<|<=) LEN  as the condition for staying in the loop
+                if kb and kb[0] == "len":
+                    K, strict = ka, op
+                elif ka and ka[0] == "len":
+                    K, strict = kb, {"Lt": "Gt", "Le": "Ge", "Gt": "Lt", "Ge": "Le"}[op]
+                else:
+                    continue
+                if not cont_when_true:
+                    strict = {"Lt": "Ge", "Le": "Gt", "Gt": "Le", "Ge": "Lt"}[strict]
+                if strict not in ("Lt", "Le"):
+                    continue
+                cond = (K, strict == "Lt", n)
+    if cond is None:
+        return False, True, "no `cursor + X < len` exit condition"
+    K, strict, cb = cond
+    terms = _flatten_add(K)
+    # 2. the cursor: a term that is a plain local with an in-loop definition `cursor = (cursor + t).0`
+    incs = {}      # cursor local -> [(block, term key)]
+    for i, j, st in F.stmts(b):
+        if i in body and st[0] == "assign" and len(st[1]) == 1 and st[2][0] == "use":
+            src = F.op_place(st[2][1])
+            if src is None or len(src) != 2:
+                continue
+            for d in taint.defs(b).get(src[0], []):
+                if d[0] == "assign" and d[2][0] == "binop" and d[2][1].startswith("Add"):
+                    a, c = d[2][2], d[2][3]
+                    la = F.op_local(a)
+                    if la == st[1][0] or (la is not None and taint.canon_place(b, [la]) == [st[1][0]]):
+                        incs.setdefault(st[1][0], []).append((i, taint.expr_key(b, c)))
+    cursor = None
+    for t_ in terms:
+        if t_[0] == "p":
+            import json as _j
+            pl = _j.loads(t_[1])
+            if len(pl) == 1 and pl[0] in incs:
+                cursor = pl[0]
+                ckey = t_
+    if cursor is None:
+        return False, True, "exit condition does not mention an advancing cursor"
+    # bodies that probe further positions themselves (`get(cursor + 1)`) extend the guarantee on their own: not this shape
+    for bi, t in F.calls(b):
+        if bi in body and last_seg(F.callee_name(t)) in ("get", "get_mut", "checked_add", "checked_sub"):
+            for a in t["args"][1:]:
+                ks = repr(taint.expr_key(b, a))
+                al = F.op_local(a)
+                agg = [repr(taint.expr_key(b, o)) for d in taint.defs(b).get(al, []) if d[0] == "assign" and d[2][0] == "aggregate" for o in d[2][2]] if al is not None else []
+                if repr(ckey) in ks or any(repr(ckey) in x for x in agg):
+                    return False, True, "the body probes positions beyond the cursor itself"
+    allowed = [x for x in terms if x != ckey]
+    a_const = sum(x[1] for x in allowed if x[0] == "c" and isinstance(x[1], int)) + (1 if strict else 0)
+    a_syms = sorted(repr(x) for x in allowed if x[0] != "c")
+    # 3. consumption along every path head -> back edge
+    backs = [a for a, h in cfg.back_edges() if h == head]
+    inc_at = {}
+    for i, k in incs[cursor]:
+        inc_at.setdefault(i, []).append(k)
+    worst = None
+    seen_paths = 0
+    stack = [(head, [], frozenset([head]))]
+    while stack and seen_paths < 500:
+        n, acc, vis = stack.pop()
+        acc2 = acc + inc_at.get(n, [])
+        if n in backs:
+            seen_paths += 1
+            c_const = sum(x[1] for x in acc2 if x[0] == "c" and isinstance(x[1], int))
+            c_syms = sorted(repr(x) for x in acc2 if x[0] != "c")
+            # symbols consumed must be among the symbols guaranteed; constants likewise
+            ok = True
+            rest = list(a_syms)
+            for s_ in c_syms:
+                if s_ in rest:
+                    rest.remove(s_)
+                else:
+                    ok = False
+            if c_const > a_const:
+                ok = False
+            if not ok:
+                worst = (c_const, c_syms)
+            continue
+        for s_ in cfg.succ[n]:
+            if s_ in body and s_ not in vis:
+                stack.append((s_, acc2, vis | {s_}))
+    if worst is not None:
+        return True, False, "one iteration advances the cursor by %s + %s but the loop condition only guarantees %s + %s more bytes" % (worst[0], worst[1], a_const, a_syms)
+    return True, True, "each iteration advances the cursor by no more than the loop condition guarantees (%d + %s)" % (a_const, a_syms)
